@@ -445,6 +445,7 @@ func createStrFunctions() { //nolint:funlen // we do have quite a few, yes.
 	strFn.Name = "regsub"
 	strFn.Help = "regexp, input, subst"
 	strFn.ArgTypes = []object.Type{object.STRING, object.STRING, object.STRING}
+	strFn.MinArgs = 3 // (was inherited from regexp: regsub("a", "b") read the missing third argument)
 	strFn.MaxArgs = 3
 	strFn.Callback = func(env any, _ string, args []object.Object) object.Object {
 		s := env.(*eval.State)
